@@ -15,6 +15,10 @@ Added after the second and third seeding rounds:
   antecedents    (shared with C03) a learnt clause keeps every lower-level literal it was derived from
 Added after the fourth round:
   clause-shape, watch-list  (shared with C01/C02) a clause forces its last literal only when it is unit
+
+Added after the fifth seeding round:
+  core(verdict) / result-must-use / soft-loop  a literal is asserted only by a clause that follows from the problem, at the level
+                      where it is unit (C05-13), and an interrupted soft run is not presented as a solution (C05-14); rules/core.py
 """
 from common import *
 import q, enc
@@ -52,6 +56,13 @@ def run(ctx):
         import c01, wl
         ctx.guard("clause-shape" + tag, c01.clause_shape, ctx, crate, crs, tag)
         ctx.guard("watch-list" + tag, wl.run, ctx, crate, crs, tag)
+        # a literal is asserted true only by a clause that follows from the problem, at the level the clause becomes unit (seed
+        # C05-13: a "restart" that backtracks further than the learnt clause's level leaves its asserted literal without its
+        # premise), and a run that was interrupted half-way is never handed out as a solution (seed C05-14)
+        import core, c12, c14
+        ctx.guard("core" + tag, core.verdict, ctx, crate, crs, tag)      # see rules/core.py
+        ctx.guard("result-must-use" + tag, c12.results_used, ctx, crate, tag)
+        ctx.guard("soft-loop" + tag, c14.soft_loop, ctx, crate, crs, tag)
 
 
 def positive_literals(ctx, crate, crs, tag):
